@@ -163,6 +163,30 @@ def rightDiagSpec (t : List Cell) (dates : List Date) (out : List Cell) : List (
     ("emptyWhenComplete", !(rightDiagNothingMissing t dates) || out.isEmpty),
     ("canonical", Spec.isCanonical out) ]
 
+/-! ### `make_right_diagonal` with include_historic = True
+
+With the flag the requested dates are NOT restricted to those after the slice's latest evaluation date: the operator
+puts an empty cell at EVERY requested date not before the period start on every observed row — also on coordinates that
+are occupied (`Properties/C15.lean: rightDiag_historic_recreates`). The clauses `disjoint`, `afterLatest`,
+`emptyWhenComplete` and the "after the slice's latest date" part of `onGrid` / `complete` therefore do not apply; what
+holds is listed here. -/
+
+def rightDiagHistOnGrid (t : List Cell) (dates : List Date) (out : List Cell) : Bool :=
+  out.all fun c => dates.contains c.ev && c.ps ≤ c.ev && !(rowOf t c).isEmpty
+
+def rightDiagHistComplete (t : List Cell) (dates : List Date) (out : List Cell) : Bool :=
+  t.all fun rep => dates.all fun d =>
+    !(decide (rep.ps ≤ d)) || out.any fun c => sameRow c rep && c.ev == d
+
+def rightDiagHistSpec (t : List Cell) (dates : List Date) (out : List Cell) : List (String × Bool) :=
+  [ ("onGrid", rightDiagHistOnGrid t dates out),
+    ("complete", rightDiagHistComplete t dates out),
+    ("nodup", !(nodupList dates) || nodupCoords out),
+    ("valuesEmpty", valuesEmpty out),
+    ("basis", basisKept t out),
+    ("chain", chainOk t out),
+    ("canonical", Spec.isCanonical out) ]
+
 /-! ### `fill_forward_gaps` -/
 
 def resolveRes (t : List Cell) (res? : Option Int) : Option Int :=
@@ -209,8 +233,9 @@ def fillNothingMissing (t : List Cell) (res : Int) : Bool :=
   t.all fun rep => (innerGrid t res rep).all fun l =>
     (rowOf t rep).any fun o => o.ev == addMonths rep.pe (l : Rat)
 
-/-- carried forward from the latest earlier observation (same class, same previous date, same
-values), or the same keys all `None` -/
+/-- carried forward from the latest earlier observation (same class, same values), or the same keys all `None`.
+The conjunct `a.prev == s.prev` is NOT a clause of the property: it records what the code does on an incremental
+triangle (`cell.replace(evaluation_date=…)` keeps the source's `prev_evaluation_date`); the property is silent on it. -/
 def fillValues (t : List Cell) (noneFlag : Bool) (out : List Cell) : Bool :=
   (added t out).all fun a =>
     match sourceOf t a with
